@@ -432,6 +432,14 @@ def plan_sessions(ctx):
                     "evaluator": rng.choice(["uniform", "uniform", "random"]), "eseed": rng.randrange(1 << 30),
                     "budget": rng.choice([40, 100, 200] if size == 3 else [60, 150]), "C": rng.choice([4, 1.5]),
                     "sseed": rng.randrange(1 << 30), "cutoff": 1e-6})
+    # an analysis tool looking at sibling variations of one game with one engine: S+a+m, S+b+m,
+    # S+c+m, ... (placements commute, so the trees of the variations share positions reached by
+    # other move orders); every move the engine can hand back at a variation's root is legal THERE
+    for _ in range(6 if ctx.thorough else 2):
+        size = rng.choice([3, 3, 4])
+        out.append({"kind": "variations", "size": size, "opening": rng.choice([2, 3, 4]), "n": rng.choice([3, 4, 5]),
+                    "evaluator": "uniform", "eseed": rng.randrange(1 << 30), "budget": rng.choice([30, 80]), "C": 4,
+                    "sseed": rng.randrange(1 << 30), "cutoff": 1e-6})
     return out
 
 
@@ -469,6 +477,31 @@ def run_session(sess, ctx=None):
         if sess["kind"] == "mixed":
             for ps in sess["requests"]:
                 ask(ser.parse_pos(ps.split(" ")))
+        elif sess["kind"] == "variations":
+            F = tak.MoveType.PLACE_FLAT
+            base = tak.Position.from_config(tak.Config(size=sess["size"]))
+            for _ in range(sess["opening"]):
+                empties = [(x, y) for x in range(base.size) for y in range(base.size) if not base[x, y]]
+                x, y = rng.choice(empties)
+                base = base.move(tak.Move(x, y, F))
+            empties = [(x, y) for x in range(base.size) for y in range(base.size) if not base[x, y]]
+            rng.shuffle(empties)
+            (mx, my), firsts = empties[0], empties[1: 1 + sess["n"]]
+            for (x, y) in firsts:
+                try:
+                    root = base.move(tak.Move(x, y, F)).move(tak.Move(mx, my, F))
+                except tak.IllegalMove:
+                    continue
+                if root.winner()[1] is not None:
+                    continue
+                before = ser.pos_str(root)
+                try:
+                    tree = engine.analyze(root)
+                    for _ in range(12):
+                        asked.append((before, engine.select_root_move(tree), None))
+                except Exception as e:
+                    asked.append((before, None, "%s: %s" % (type(e).__name__, str(e)[:120])))
+                ask(root)
         else:
             cfgs = [tak.Config(size=c["size"], pieces=c["pieces"], capstones=c["capstones"]) for c in sess["configs"]]
 
